@@ -21,7 +21,7 @@ from .common import seed
 from .retryenv import make_exc
 
 OP_KINDS = ["genexit", "circuitopen", "hostile", "cancel", "kbd", "sysexit", "nested", "abort", "error"]
-SITES = ["classifier", "rclassifier", "strategy", "handler", "bsleep", "sleeper", "astart", "aend"]
+SITES = ["classifier", "rclassifier", "strategy", "handler", "bsleep", "sleeper", "astart", "aend", "abort"]
 SITE_KINDS = ["error", "kbd", "cancel", "genexit", "abort", "circuitopen", "nested", "sysexit"]
 THROW_KINDS = ["cancel", "kbd", "genexit", "error", "sysexit"]
 
